@@ -412,12 +412,21 @@ QByteArray QXmppDiscoveryIq::verificationString() const
             for (const auto &key : keys) {
                 const QXmppDataForm::Field field = fieldMap.value(key);
                 S += key + u'<';
+                // XEP-0115 5.1: only <value/> elements are followed by '<'. QXmppDataForm::toXml()
+                // writes no <value/> for an empty value list or an empty single value.
                 if (field.value().canConvert<QStringList>()) {
                     QStringList list = field.value().toStringList();
                     list.sort();
                     S += list.join(u'<');
+                    if (list.isEmpty() || (field.value().userType() == QMetaType::QString && list.constFirst().isEmpty())) {
+                        continue;
+                    }
                 } else {
-                    S += field.value().toString();
+                    const QString value = field.value().toString();
+                    if (value.isEmpty()) {
+                        continue;
+                    }
+                    S += value;
                 }
                 S += u'<';
             }
